@@ -8,14 +8,18 @@ package main
 // and the engine forks as usual. Merging changes only the NUMBER of paths, never the set of behaviours.
 
 import (
+	"fmt"
 	"go/token"
 	"go/types"
+	"os"
 	"sync"
 
 	"golang.org/x/tools/go/ssa"
 )
 
 type specAbort struct{ why string }
+
+var mergeLog = os.Getenv("GOSYM_MERGELOG") != ""
 
 var (
 	pdomMu    sync.Mutex
@@ -214,9 +218,18 @@ func (in *Interp) tryMerge(fr *frame, b *ssa.BasicBlock, c *Term) (join *ssa.Bas
 	if j == nil {
 		return nil, false
 	}
+	// speculation works on a copy of the register file: an aborted attempt must leave no trace
+	saved := fr.env
+	work := make(map[ssa.Value]Value, len(saved)+16)
+	for k, v := range saved {
+		work[k] = v
+	}
+	fr.env = work
+	in.specRoot = b
 	defer func() {
 		if r := recover(); r != nil {
 			in.specDepth = 0
+			fr.env = saved
 			switch r.(type) {
 			case specAbort:
 				join, ok = nil, false
@@ -240,6 +253,9 @@ func (in *Interp) tryMerge(fr *frame, b *ssa.BasicBlock, c *Term) (join *ssa.Bas
 		if in.access != nil {
 			in.access.record(p, true, "merged store")
 		}
+		if mergeLog {
+			fmt.Fprintf(os.Stderr, "   store %s := %v\n", k, sb.m[k])
+		}
 		p.store(sb.m[k])
 	}
 	nphi := 0
@@ -252,6 +268,12 @@ func (in *Interp) tryMerge(fr *frame, b *ssa.BasicBlock, c *Term) (join *ssa.Bas
 		nphi++
 	}
 	in.merges++
+	if mergeLog && os.Getenv("GOSYM_MERGELOG") == "2" {
+		fr.fn.WriteTo(os.Stderr)
+	}
+	if mergeLog {
+		fmt.Fprintf(os.Stderr, "MERGE %s block %d (%s) -> %d cond=%s stores=%d\n", fr.fn.String(), b.Index, b.Comment, j.Index, trunc(c.String(), 80), len(sb.order))
+	}
 	return j, true
 }
 
@@ -331,7 +353,9 @@ func (in *Interp) specRun(fr *frame, start, from, j *ssa.BasicBlock, sb *storeBu
 	visited := map[*ssa.BasicBlock]bool{}
 	phisDone := false
 	for cur != j {
-		if visited[cur] {
+		if visited[cur] || cur.Dominates(in.specRoot) {
+			// re-entering a block that dominates the branch means following a loop back-edge: values defined
+			// there (loop phis) would need merging too, which this scheme does not do
 			panic(specAbort{"loop"})
 		}
 		visited[cur] = true
